@@ -969,6 +969,29 @@ class Exec:
     def ev_Lambda(self, node, st, want):
         return SV(T.Fun([], T.NONE), None, extra=('lambda', node, st))
 
+    def ev_ListComp(self, node, st, want):
+        """[expr for x in seq]  (one generator, no filter): pointwise image of a sequence"""
+        if len(node.generators) != 1 or node.generators[0].ifs:
+            raise OutOfSubset('list comprehension with filter / several generators')
+        g = node.generators[0]
+        seq = self.ev(g.iter, st)
+        if not isinstance(seq.ty, T.Seq) or not isinstance(g.target, ast.Name):
+            raise OutOfSubset('list comprehension over %s' % seq.ty)
+        j = z3.Int('j!lc%d' % next(_fresh_counter))
+        st2 = st.copy()
+        st2.env[g.target.id] = seq_get(seq, j)
+        st2.alias.pop(g.target.id, None)
+        saved = list(self.guards)
+        self.guards.append(z3.And(0 <= j, j < seq_len(seq)))
+        try:
+            elem_want = want.elem if isinstance(want, T.Seq) else None
+            v = self.ev(node.elt, st2, elem_want)
+        finally:
+            self.guards = saved
+        rty = T.Seq(v.ty)
+        arr = z3.Lambda([j], z3.If(z3.And(0 <= j, j < seq_len(seq)), v.t, v.ty.dflt()))
+        return SV(rty, rty.mk(seq_len(seq), arr))
+
     def ev_DictComp(self, node, st, want):
         """{kexpr: vexpr for k, v in m.items() if cond}  with kexpr == k  (filter / map over a dict)"""
         if len(node.generators) != 1:
@@ -1125,6 +1148,16 @@ class Exec:
             if k.ty == T.INT:
                 self.safety(st, z3.And(T.is_TList(base.t), 0 <= k.t, k.t < T.llen(base.t)), 'index-in-range')
                 return SV(T.TREE, T.TList(T.llen(base.t), z3.Store(T.larr(base.t), k.t, v.t)))
+        if isinstance(ty, T.Tup):
+            if not (isinstance(sl, ast.Constant) and isinstance(sl.value, int)):
+                raise OutOfSubset('tuple store with computed index')
+            if not existing:
+                raise OutOfSubset('item assignment on a tuple')
+            # only reached as the write-back of an in-place mutation of a mutable component
+            i = sl.value
+            v = coerce(val, ty.items[i])
+            parts = [v.t if j == i else ty.get(base.t, j) for j in range(len(ty.items))]
+            return SV(ty, ty.mk(*parts))
         if ty == T.EMPTYDICT:
             raise OutOfSubset('store into untyped {} (declare the local in the contract)')
         if isinstance(ty, T.Seq):
